@@ -1,6 +1,6 @@
 #!/bin/bash
 # usage: tools/r2try.sh <Cxx> [extra checks...]
-P=$1; shift; D=/tmp/mut/$P.r2
+P=$1; shift; D=/tmp/mut/$P.${ROUND:-r2}
 for K in 1 2 3; do
   [ -f $D/m$K.diff ] || continue
   echo "#### $P r2 m$K"
